@@ -29,6 +29,7 @@ type KubernetesBindingsController interface {
 	UpdateMonitor(monitorId string, kind, apiVersion string) error
 	UnlockEvents()
 	UnlockEventsFor(monitorID string)
+	DropSavedEventsFor(monitorID string)
 	StopMonitors()
 	CanHandleEvent(kubeEvent kemtypes.KubeEvent) bool
 	HandleEvent(kubeEvent kemtypes.KubeEvent) BindingExecutionInfo
@@ -170,6 +171,16 @@ func (c *kubernetesBindingsController) UnlockEventsFor(monitorID string) {
 		return
 	}
 	m.EnableKubeEventCb()
+}
+
+// DropSavedEventsFor drops events saved by matched monitor before the Synchronization.
+func (c *kubernetesBindingsController) DropSavedEventsFor(monitorID string) {
+	m := c.kubeEventsManager.GetMonitor(monitorID)
+	if m == nil {
+		log.Warn("monitor was not found", slog.String("monitorID", monitorID))
+		return
+	}
+	m.DropSavedEvents()
 }
 
 // StopMonitors stops all monitors for the hook.
